@@ -163,7 +163,9 @@ func main() {
 		case r.Stalled != "":
 			stallCount++
 			cls := "reader-parked-in-delivery"
-			if strings.Contains(r.Stalled, "fresh request") {
+			if strings.Contains(r.Stalled, "registry lock deadlock") {
+				cls = "registry-lock-deadlock"
+			} else if strings.Contains(r.Stalled, "fresh request") {
 				cls = "fresh-request-unanswered"
 			} else if strings.Contains(r.Stalled, "did not process") {
 				cls = "reader-not-consuming"
@@ -237,7 +239,11 @@ func main() {
 			mu.Unlock()
 			switch {
 			case r.Stall != "":
-				run.Violation("C06:stress:reader-parked-in-delivery:"+sp.leg, r.Stall, r.Witness)
+				cls := "reader-parked-in-delivery"
+				if strings.Contains(r.Stall, "registry lock deadlock") {
+					cls = "registry-lock-deadlock"
+				}
+				run.Violation("C06:stress:"+cls+":"+sp.leg, r.Stall, r.Witness)
 			case r.Inconclusive != "":
 				run.Inconclusive(fmt.Sprintf("stress trial %d: %s", i, r.Inconclusive))
 			case r.Bad != "":
